@@ -133,7 +133,7 @@ CLAIMS = {
    text="Lean theorem: for every state and event, if store_event returns anything but Ok, every table (index, id markers, address markers, extra) is exactly "
         "what it was, hence every lookup, marker query, find_events answer and entry count is unchanged; earlier offsets still read back. Direct, model-free "
         "oracle on the real store: the whole probe battery before a failing store equals the battery after it, over histories aimed at failures after "
-        "effects (k-th foreign tag after k-1 own ones, replaced after pre-removal, LMDB key-size error after earlier tags). FAULT INJECTION for the "any other error" clause: newer/older versions of an address, deletion requests by id and by address, regular events and duplicates stored while all LMDB reader slots are taken (RDF): whenever the call returns an error the battery is unchanged. REFINEMENT (store_refines_abstract, every_history_refines_abstract): on every reachable state the concrete model computes exactly the abstract store of Spec/AbsStore.lean, for every history incl. vanish and rebuild; on the abstract side the property is three lines (abstract_failed_store). The Lean abstract store follows every history in the driver and is compared with the independently written Python specification after every step (SPC).",
+        "effects (k-th foreign tag after k-1 own ones, replaced after pre-removal, LMDB key-size error after earlier tags). FAULT INJECTION for the any-other-error clause: newer/older versions of an address, deletion requests by id and by address, regular events and duplicates stored while all LMDB reader slots are taken (RDF): whenever the call returns an error the battery is unchanged. REFINEMENT (store_refines_abstract, every_history_refines_abstract): on every reachable state the concrete model computes exactly the abstract store of Spec/AbsStore.lean, for every history incl. vanish and rebuild; on the abstract side the property is three lines (abstract_failed_store). The Lean abstract store follows every history in the driver and is compared with the independently written Python specification after every step (SPC).",
    note=PROOF_NOTE + 'Modelled, not verified: LMDB (ordered maps, snapshot reads inside a write transaction, atomic commit), the mmap-append event map; the seven index tables are modelled as functions of the set of indexed events with range scans as filter+key-order sort. ' + "The bytes of a refused event stay in the map (not an observable of this property; rebuild reclaims them).",
    technique="Lean 4 proof (case analysis of the transaction discipline) + model-free before/after battery oracle + differential correspondence",
    design="6/C12"),
